@@ -28,4 +28,24 @@ theorem compiled_code_shared_readonly :
 theorem unlocked_writers_match :
     Risor.Generated.C09.unlockedWriters = reviewedUnlockedWriters := by decide
 
+/-- the Risor object types that live in process-wide registries / caches, and the fields their
+    methods assign, are the reviewed ones (a mutable container type appearing here breaks the tie) -/
+theorem registry_types_match : Risor.Generated.C09.registryTypes = registryTypeRows := by decide
+
+/-- every object a method of a registry-resident type hands out comes from where the reviewed
+    table says: constructed per request, or read from a field / global of an immutable type -/
+theorem registry_returns_match : Risor.Generated.C09.registryReturns = registryRows := by decide
+
+/-- stated directly on the regenerated tables (so that a cached mutable object is named here, too) -/
+theorem registry_generated_fresh_or_immutable :
+    Risor.Generated.C09.registryReturns.all regRowOK = true
+      ∧ Risor.Generated.C09.registryTypes.all regTypeOK = true := by decide
+
+/-- where package vm gets its machines from is what was reviewed, and `vm.Run` (behind
+    `risor.Eval` / `EvalCode`), `vm.New`, `vm.NewEmpty` and `Clone` allocate theirs per request -/
+theorem machine_sources_match :
+    Risor.Generated.C09.machineSources = machineSourceRows
+      ∧ ["vm.Run", "vm.New", "vm.NewEmpty", "vm.VirtualMachine.Clone"].all
+          (machineFresh Risor.Generated.C09.machineSources 6) = true := by decide
+
 end Risor.C09
